@@ -154,6 +154,11 @@ impl Pri {
         LIVE_PRIS.with(|c| c.set(c.get() + 1));
         Pri { rank: embed(r), tag }
     }
+    /// raw rank (cost engine: ranks are not logged)
+    pub fn new_raw(rank: i64, tag: i64) -> Pri {
+        LIVE_PRIS.with(|c| c.set(c.get() + 1));
+        Pri { rank, tag }
+    }
     pub fn r(&self) -> i64 {
         unembed(self.rank)
     }
